@@ -9,11 +9,11 @@ Import ListNotations.
 
 Definition str := list ascii.
 
-(* ---- repair switches (stage 1: false = the code as it is; flipped by the coordinator together with the fix) ---- *)
-(* D99: OperatorTemplate.update_template pops 'add' out of the CALLER's edit dictionary (fixes/fix_D99.diff works on a copy) *)
+(* ---- repair switches (false = the code before the fix; true since the fix landed in /repo: D99 = 84e16e5, D100 = bc613b0) ---- *)
+(* D99: OperatorTemplate.update_template pops 'add' out of the CALLER's edit dictionary (before fix D99; the repaired method works on a copy) *)
 Definition fixed_D99 : bool := true.
 (* primed left-hand sides: the derivative mark ' is not in allowed_follow_ops, so `x'` is one identifier for replace
-   (fixes/fix_C15_prime_delim.diff adds ' to the set) *)
+   (before fix D100, which adds ' to the set) *)
 Definition fixed_prime : bool := true.
 
 (* allowed_follow_ops = '-+=*/^<>=!.%@[]():, '   (parser.py line 708) *)
